@@ -126,9 +126,36 @@ class Flow:
             return [k for k in self.taint if k[0] == f.key and k[1] == x.id]
         return []
 
-    def expr_taint(self, f: FuncInfo, e: ast.AST) -> Dict[str, Set[Optional[str]]]:
-        out: Dict[str, Set[Optional[str]]] = {}
+    def _lib_call_nodes(self, f: FuncInfo, e: ast.AST) -> Set[int]:
+        """ids of all nodes that are arguments of a call into the library (its result is the product, not the option)."""
+        skip: Set[int] = set()
+        for c in ast.walk(e):
+            if isinstance(c, ast.Call):
+                tg = self.ctx.cg.resolve_call(f, f.module, c)
+                is_lib = any((isinstance(t, FuncInfo) and t not in self.funcs and not t.relpath.endswith("cli.py")) or
+                             (isinstance(t, ClassInfo) and not t.module.relpath.endswith("cli.py")) for t in tg)
+                tainted_callee = isinstance(c.func, (ast.Name, ast.Attribute)) and bool(self._raw_taint(f, c.func))
+                if is_lib and not tainted_callee:
+                    for a in list(c.args) + [k.value for k in c.keywords]:
+                        for x in ast.walk(a):
+                            skip.add(id(x))
+        return skip
+
+    def _raw_taint(self, f: FuncInfo, e: ast.AST):
+        out = {}
         for x in ast.walk(e):
+            if isinstance(x, (ast.Name, ast.Attribute)) and isinstance(getattr(x, "ctx", None), ast.Load):
+                for c in self.read_cells(f, x):
+                    for o, ks in self.taint.get(c, {}).items():
+                        out.setdefault(o, set()).update(ks)
+        return out
+
+    def expr_taint(self, f: FuncInfo, e: ast.AST, cut_lib: bool = False) -> Dict[str, Set[Optional[str]]]:
+        out: Dict[str, Set[Optional[str]]] = {}
+        skip = self._lib_call_nodes(f, e) if cut_lib else set()
+        for x in ast.walk(e):
+            if id(x) in skip:
+                continue
             if isinstance(x, ast.Attribute) and isinstance(x.value, ast.Name) and x.value.id == "namespace":
                 out.setdefault(x.attr, set()).add(None)
             if isinstance(x, (ast.Name, ast.Attribute)) and isinstance(getattr(x, "ctx", None), ast.Load):
@@ -174,7 +201,7 @@ class Flow:
                                 c = self.cell_of(f, t1, n)
                                 if c is None:
                                     continue
-                                d = keyed if keyed is not None else self.expr_taint(f, v)
+                                d = keyed if keyed is not None else self.expr_taint(f, v, cut_lib=True)
                                 changed |= self._set(c, d, f, n)
                     elif isinstance(n, (ast.For, ast.comprehension)):
                         d = self.expr_taint(f, n.iter)
@@ -726,6 +753,13 @@ def rule_stage_same(ctx: Ctx) -> RuleResult:
     printed = [r for r in rets if isinstance(r.value, ast.Name)]
     ok = False
     why = "written value or printed value is not a plain local"
+    if isinstance(wa, ast.Name) and printed and not all(r.value.id == wa.id for r in printed):
+        # bytes written = <printed local>.encode(...)
+        dw0 = ctx.defs_reaching(run, wa, wa.id) or []
+        if len(dw0) == 1 and isinstance(dw0[0], ast.Assign) and isinstance(dw0[0].value, ast.Call) and \
+                isinstance(dw0[0].value.func, ast.Attribute) and dw0[0].value.func.attr == "encode" and \
+                isinstance(dw0[0].value.func.value, ast.Name):
+            wa = dw0[0].value.func.value
     if isinstance(wa, ast.Name) and printed:
         same_name = all(r.value.id == wa.id for r in printed)
         dw = ctx.defs_reaching(run, wa, wa.id) or []
